@@ -27,9 +27,10 @@ META = {
     "note": "Trusted: TLC, the JSON edge dump (one line per transition printed from an ACTION_CONSTRAINT, -workers 1), "
             "the driver's adapters. Where the statement leaves a choice open (which free key a slot map hands out, which "
             "of two applicable errors is reported, list_keys order) the model is nondeterministic and the walker follows "
-            "the implementation. 'All paths of length <= 6' is exhaustive over the full operation alphabet up to the "
-            "depth that fits the node budget (reported per container in the evidence) and over a core alphabet (two "
-            "token values, boundary positions) beyond it. Elements are 3 tokens, string bytes are {NUL,'a','b','/',0xC8}, "
+            "the implementation. 'All paths of length <= 6' is exhaustive over the full operation alphabet for the inline "
+            "and relocatable flavours (objects with byte-identical memory in the same model state are merged); for the "
+            "heap flavours up to the depth that fits the node budget (reported per container in the evidence) and over "
+            "a core alphabet (two token values, boundary positions) beyond it. Elements are 3 tokens, string bytes are {NUL,'a','b','/',0xC8}, "
             "slices have length <= 2. Operations whose precondition is a documented contract (insert index > len of a "
             "string: fatal panic; push_with_overflow on a zero-capacity queue) are not part of the models.",
     "design_ref": "DESIGN.md 5 C16, 3.5, 3.4",
@@ -480,13 +481,17 @@ def run(ctx):
     vp.cargo_build([DRIVER])
     quick = ctx.quick
     caps = [0, 1, 2] if quick else [0, 1, 2, 3, 4]
-    budget = 400_000 if quick else 5_000_000
+    budget = 400_000 if quick else 2_000_000
     ctx.assumptions += [
         "element domain: 3 tokens; string bytes {0,'a','b','/',0xC8}; slices of length <= 2; capacities " + str(caps),
         "graph lock-step compares after EVERY step: result, net drops per token (drop-counting element), len/is_empty/"
         "is_full/capacity, full contents or iteration order, and observer consistency (peek vs get(0), get/contains vs iter)",
         "all label paths up to the reported depth are enumerated (prefix replay from a fresh container); beyond that "
         "depth only the core alphabet up to length 6",
+        "inline and relocatable flavours: the driver owns the complete memory of the object (struct resp. header + "
+        "payload block); two objects in the same model state with byte-identical memory behave identically, so the "
+        "enumeration of ALL paths of length <= 6 over the full alphabet merges them (sound, reported as "
+        "exhaustive_to_depth_6_by_merging_identical_memory_images); heap flavours: node budget",
         "the order in which elements are dropped inside one operation is not compared (the statement fixes 'exactly once')",
     ]
     stats = new_stats()
@@ -504,18 +509,18 @@ def run(ctx):
             for cap in caps:
                 common = ["--avoid-known"]
                 jobs.append(((automata[kind], kind, fl, cap, "cover", []), {}))
-                jobs.append(((automata[kind], kind, fl, cap, "paths", common + ["--depth", 6, "--budget", budget]), {}))
+                jobs.append(((automata[kind], kind, fl, cap, "paths", common + ["--merge", "--depth", 6, "--budget", budget]), {}))
                 if kind == "slotmap":
                     # a second enumeration without insert_at: histories that stay clear of the claim_index defect
                     jobs.append(((automata[kind], kind, fl, cap, "paths",
-                                  common + ["--depth", 6, "--budget", budget, "--exclude", "insert_at"]), {}))
+                                  common + ["--merge", "--depth", 6, "--budget", budget, "--exclude", "insert_at"]), {}))
                 if not quick:
                     for n, excl in enumerate(([], ["insert_at"]) if kind == "slotmap" else ([],)):
                         o = common + ["--walks", 12, "--steps", 10000] + (["--exclude", ",".join(excl)] if excl else [])
                         jobs.append(((automata[kind], kind, fl, cap, "random", o), {"salt": 100 + n}))
                 # recorded walks for the impl -> spec direction
                 tf = ctx.path("traces", f"{kind}-{fl}-{cap}.ndjson")
-                walks, steps = (3, 60) if quick else (6, 250)
+                walks, steps = (3, 60) if quick else (4, 150)
                 o = common + ["--walks", walks, "--steps", steps, "--trace-out", tf] + (["--exclude", "insert_at"] if kind == "slotmap" else [])
                 jobs.append(((automata[kind], kind, fl, cap, "random", o), {"salt": 7}))
                 trace_jobs.setdefault(kind, []).append((tf, walks))
@@ -538,7 +543,9 @@ def run(ctx):
             continue
         if s["mode"] == "paths" and "--exclude" not in s["opts"]:
             stats["depths"][key] = {"full_alphabet_depth": det.get("depth_full"), "paths_full": det.get("paths_full", 0),
-                                    "core_alphabet_depth": det.get("depth_core"), "paths_core": det.get("paths_core", 0)}
+                                    "core_alphabet_depth": det.get("depth_core"), "paths_core": det.get("paths_core", 0),
+                                    "exhaustive_to_depth_6_by_merging_identical_memory_images": det.get("exhaustive_by_merging", False),
+                                    "memory_images": det.get("memory_images", 0), "truncated": det.get("truncated", False)}
         if s["mode"] == "cover" and not s["divergences"] and s["kind"] in ("vec", "queue", "flatmap", "string"):
             if det["edges_covered"] < det["edges_total"]:
                 raise vp.ToolError(f"edge cover incomplete for {key}: {det}")
